@@ -157,7 +157,7 @@ def oracle(case, obs):
     metas = {}       # rule -> {METHOD: meta}
     for c, o in zip(case['cmds'], obs):
         if c['op'] == 'add':
-            ms = [m.upper() for m in c['methods']]
+            ms = [m.upper() for m in (c['methods'] if isinstance(c['methods'], list) else [c['methods']])]
             t = tables.setdefault(c['rule'], {})
             taken = [m for m in ms if m in t]
             if not c.get('overwrite') and taken:
@@ -279,6 +279,8 @@ def classify(case, obs):
 def shrink(case):
     return L.shrink_cmds(case)
 
+
+API_SURFACE = L.API_SURFACE          # audit round 4: see tools/props/routerC_lib.py
 
 PREDICATES = {}
 
